@@ -85,7 +85,9 @@ fn cz(v: &[snel_db::engine::core::CandidateZone]) -> BTreeSet<u32> {
 
 pub fn child(root: &str, tier: &str) -> i32 {
     let root = PathBuf::from(root);
-    let z = 3usize;
+    // VERIF_C08_Z > 3: "wide" mode - zones of that many rows in which one value sits at chosen row positions only
+    let z: usize = std::env::var("VERIF_C08_Z").ok().and_then(|s| s.parse().ok()).unwrap_or(3);
+    let wide = z > 3;
     let cfg = SysConfig { event_per_zone: z, fill_factor: 100_000, ..Default::default() };
     let cfg_path = cfg.write(&root);
     unsafe { std::env::set_var("SNELDB_CONFIG", &cfg_path) };
@@ -95,15 +97,38 @@ pub fn child(root: &str, tier: &str) -> i32 {
     let alph = alphabets();
     let n = 14usize;
     // segments: (name, list of zones as index multisets)
-    let all3 = multisets(n, z);
+    let all3 = if wide { Vec::new() } else { multisets(n, z) };
     let mut segs: Vec<(String, Vec<Vec<usize>>)> = Vec::new();
     let big: Vec<Vec<usize>> = all3.clone();
     let _ = tier;
-    segs.push(("all-multisets".into(), big));
-    segs.push(("one-zone".into(), vec![vec![0, 5, 13]]));
-    segs.push(("two-zones+partial".into(), vec![vec![1, 1, 2], vec![3, 9, 9], vec![4]]));
-    segs.push(("twelve-zones-mostly-matching".into(), (0..12).map(|i| vec![8 + i % 5, 9 + i % 4, 13]).collect()));
-    segs.push(("eleven-zones".into(), (0..11).map(|i| vec![i, (i + 1) % n, (i + 2) % n]).collect()));
+    if !wide {
+        segs.push(("all-multisets".into(), big));
+        segs.push(("one-zone".into(), vec![vec![0, 5, 13]]));
+        segs.push(("two-zones+partial".into(), vec![vec![1, 1, 2], vec![3, 9, 9], vec![4]]));
+        segs.push(("twelve-zones-mostly-matching".into(), (0..12).map(|i| vec![8 + i % 5, 9 + i % 4, 13]).collect()));
+        segs.push(("eleven-zones".into(), (0..11).map(|i| vec![i, (i + 1) % n, (i + 2) % n]).collect()));
+    } else {
+        // rows hold alphabet position 0 except at the listed row positions (position 1 or 2): last row,
+        // first row past a 64-row word, a run at the end, first row, none, last row of the first word,
+        // and a partial last zone with the value in its last row
+        let zone_with = |rows: usize, at: &[usize], what: usize| -> Vec<usize> { (0..rows).map(|r| if at.contains(&r) { what } else { 0 }).collect() };
+        let w = 64.min(z - 1);
+        let tail: Vec<usize> = (z.saturating_sub(4)..z).collect();
+        let part = (z * 7 / 10).max(2);
+        segs.push((
+            format!("wide-{z}"),
+            vec![
+                zone_with(z, &[z - 1], 1),
+                zone_with(z, &[w], 1),
+                zone_with(z, &tail, 2),
+                zone_with(z, &[0], 1),
+                zone_with(z, &[], 0),
+                zone_with(z, &[w - 1], 2),
+                zone_with(z, &[z / 2], 2),
+                zone_with(part, &[part - 1], 1),
+            ],
+        ));
+    }
     let mut findings: Vec<Finding> = Vec::new();
     let mut probes = 0u64;
     let mut nontrivial = 0u64;
@@ -128,7 +153,7 @@ pub fn child(root: &str, tier: &str) -> i32 {
                         payload.insert(field.to_string(), ScalarValue::from(vals[idx % vals.len()].clone()));
                     }
                     let ts = alph[6].2[idx % 14].as_u64().unwrap();
-                    let eb = EventBuilder { event_type: "w".into(), context_id: format!("ctx{}", idx % 5), timestamp: ts, event_id: EventId::from_raw(1000 + row), payload };
+                    let eb = EventBuilder { event_type: "w".into(), context_id: if wide { format!("ctx{row:06}") } else { format!("ctx{}", idx % 5) }, timestamp: ts, event_id: EventId::from_raw(1000 + row), payload };
                     events.push(eb.build());
                     row += 1;
                 }
@@ -332,12 +357,16 @@ pub fn child(root: &str, tier: &str) -> i32 {
         // the real planner + pruners (QueryPlan -> ExecutionSteps -> ZoneCollector)
         // ---------------------------------------------------------------------------------
         let step = if tier == "quick" { 5 } else { 1 };
-        let pipe_segs: Vec<(String, Vec<Vec<usize>>)> = vec![
-            ("multisets".into(), all3.iter().step_by(step).cloned().collect()),
-            ("one-zone".into(), vec![vec![0, 5, 13]]),
-            ("two-zones+partial".into(), vec![vec![1, 1, 2], vec![3, 9, 9], vec![4]]),
-            ("twelve-zones-mostly-matching".into(), (0..12).map(|i| vec![8 + i % 5, 9 + i % 4, 13]).collect()),
-        ];
+        let pipe_segs: Vec<(String, Vec<Vec<usize>>)> = if wide {
+            segs.clone()
+        } else {
+            vec![
+                ("multisets".into(), all3.iter().step_by(step).cloned().collect()),
+                ("one-zone".into(), vec![vec![0, 5, 13]]),
+                ("two-zones+partial".into(), vec![vec![1, 1, 2], vec![3, 9, 9], vec![4]]),
+                ("twelve-zones-mostly-matching".into(), (0..12).map(|i| vec![8 + i % 5, 9 + i % 4, 13]).collect()),
+            ]
+        };
         // (segment label, zone id) -> rows (alphabet indices)
         let mut truth_idx: BTreeMap<(String, u32), Vec<usize>> = BTreeMap::new();
         let mut seg_labels = Vec::new();
@@ -541,35 +570,45 @@ pub fn check(tier: &str) -> i32 {
     let kf = crate::known::load();
     let scratch = Scratch::new("c08");
     let exe = crate::explore::self_exe();
-    let out = std::process::Command::new(exe).arg("c08child").arg(scratch.dir.join("db")).arg(tier).env_remove("SNELDB_CONFIG").env("RAYON_NUM_THREADS", "1").output();
-    let out = match out {
-        Ok(o) if o.status.success() => o,
-        Ok(o) => {
-            eprintln!("MACHINERY: c08 child failed: {}", String::from_utf8_lossy(&o.stderr).chars().take(1500).collect::<String>());
-            return 2;
+    // zones of 3 rows (every multiset), then wide zones (one value at chosen row positions)
+    let widths: Vec<usize> = if tier == "quick" { vec![3, 100] } else { vec![3, 65, 72, 100, 129, 1000] };
+    let outs = crate::lab::par_map(&widths, crate::lab::threads(), |_, w| {
+        std::process::Command::new(&exe).arg("c08child").arg(scratch.dir.join(format!("db{w}"))).arg(tier).env_remove("SNELDB_CONFIG").env("RAYON_NUM_THREADS", "1").env("VERIF_C08_Z", w.to_string()).output()
+    });
+    let mut failing: Vec<crate::golden::Failing> = Vec::new();
+    let mut v = json!({});
+    let mut wide_cov = Vec::new();
+    for (w, out) in widths.iter().zip(outs) {
+        let out = match out {
+            Ok(o) if o.status.success() => o,
+            Ok(o) => {
+                eprintln!("MACHINERY: c08 child (zones of {w} rows) failed: {}", String::from_utf8_lossy(&o.stderr).chars().take(1500).collect::<String>());
+                return 2;
+            }
+            Err(e) => {
+                eprintln!("MACHINERY: {e}");
+                return 2;
+            }
+        };
+        let vw: Value = match serde_json::from_slice(out.stdout.split(|b| *b == b'\n').filter(|l| l.starts_with(b"{")).last().unwrap_or(&[])) {
+            Ok(v) => v,
+            Err(e) => {
+                eprintln!("MACHINERY: bad child output: {e}");
+                return 2;
+            }
+        };
+        let prefix = if *w == 3 { String::new() } else { format!("zones of {w} rows: ") };
+        for f in vw["findings"].as_array().cloned().unwrap_or_default() {
+            let class0 = f["class"].as_str().unwrap_or("").to_string();
+            let class = format!("{prefix}{class0}");
+            failing.push(crate::golden::Failing { key: class.clone(), digest: vw["digests"][&class0].as_str().unwrap_or("").to_string(), class, detail: f.clone() });
         }
-        Err(e) => {
-            eprintln!("MACHINERY: {e}");
-            return 2;
+        if *w == 3 {
+            v = vw;
+        } else {
+            wide_cov.push(json!({"rows_per_zone": w, "probes": vw["probes"], "nontrivial": vw["nontrivial"], "structures": vw["structures"]}));
         }
-    };
-    let v: Value = match serde_json::from_slice(out.stdout.split(|b| *b == b'\n').filter(|l| l.starts_with(b"{\"findings\"") || l.starts_with(b"{")).last().unwrap_or(&[])) {
-        Ok(v) => v,
-        Err(e) => {
-            eprintln!("MACHINERY: bad child output: {e}");
-            return 2;
-        }
-    };
-    let failing: Vec<crate::golden::Failing> = v["findings"]
-        .as_array()
-        .cloned()
-        .unwrap_or_default()
-        .iter()
-        .map(|f| {
-            let class = f["class"].as_str().unwrap_or("").to_string();
-            crate::golden::Failing { key: class.clone(), digest: v["digests"][&class].as_str().unwrap_or("").to_string(), class, detail: f.clone() }
-        })
-        .collect();
+    }
     let verdict = crate::golden::judge("C08", tier, &failing);
     let nv = crate::golden::report("C08", &verdict, &|_| kf.describe("C08", "golden"), 8);
     write_evidence(&Evidence {
@@ -583,6 +622,8 @@ pub fn check(tier: &str) -> i32 {
             "rule": "zones of 3 rows holding every multiset of 3 positions of a 14-value alphabet per kind (signed ints across byte boundaries and both extremes, u64 around 2^63 and 2^64, floats incl. -0.0 / 5e-324 / 1e308, strings incl. empty / prefix-related / non-ASCII / numeric-looking, bools, enum variants, instants on hour and day boundaries and two instants 35 / 40 days away, so that some zones span more than a month while others cover the same hours narrowly; quick: every third multiset) plus segments of 1, 3 (last partial), 11 and 12 zones; planned and written through ZonePlanner::plan + ZoneWriter::write_all (what a flush does per event type); each structure file that exists is loaded and probed: zone SuRF (>=, >, <=, < with every alphabet value, absent values and literals of another numeric kind, encoded as the range pruner encodes them), per-zone and per-field membership filters (=), enum bitmaps (=, != per variant), calendar hour/day buckets and per-zone time index (every stored instant), context index; then the same kinds of zones are STOREd and FLUSHed through the real shard (segments of many, 1, 3 and 12 zones in one shard) and every probe `field op literal` (=, !=, <, <=, >, >= x the alphabet, absent values and literals of another numeric kind) is planned by the real QueryPlan and answered by the real ZoneCollector (index strategy choice + pruners + combination): every (segment, zone) holding a matching row must be among the candidates; oracle = brute-force scan of the zone's values with a typed comparison; distinct_nontrivial = probes for which some zone holds a match and (for range probes) the structure excluded at least one zone",
             "samples": v["samples"],
             "structure_files_loaded": v["structures"],
+            "wide_zones": wide_cov,
+            "wide_zones_rule": "the same structure and pipeline probes on a segment of seven full zones and one partial zone of w rows in which every row holds alphabet position 0 except chosen rows (last row, row 64, row 63, the last four rows, row 0, the middle row, none; last row of the partial zone), so that a value is present only beyond a machine-word boundary of a per-row bitmap",
             "exhaustive": true,
         }),
         assumptions: vec!["literals are turned into probe keys exactly as RangePruner does (surf_encoding::encode_value of the literal's scalar)".into(), "the per-field temporal calendar (TemporalCalendarIndex::zones_intersecting is private) is covered end to end by C02 / C16 only".into()],
